@@ -193,8 +193,20 @@ def events(plan_units, plan_variants, seed, nvariants):
             c = make_variant(v, rng)
             path = os.path.join(tmp, "config.toml")       # ONE path, overwritten by every variant: a read returns the last write
             try:
-                create_toml(path, c)
-                back = config_from_toml(path)
+                # the file name as a str, as a path object, and relative to the working directory (all name the same file)
+                import pathlib
+                spell = i % 4
+                if spell == 3:
+                    cwd0 = os.getcwd()
+                    os.chdir(tmp)
+                    try:
+                        create_toml("config.toml", c)
+                        back = config_from_toml(pathlib.Path("config.toml"))
+                    finally:
+                        os.chdir(cwd0)
+                else:
+                    create_toml(pathlib.Path(path) if spell == 1 else path, c)
+                    back = config_from_toml(pathlib.Path(path) if spell == 2 else path)
                 fields, nb, na = project_fields(c, back, toks)
                 ok, err = True, None
             except Exception as ex:
